@@ -424,6 +424,22 @@ pub fn eval_history(
                         let ok = last.exit.as_ref().map(|e| e.1 == 0).unwrap_or(false);
                         let success_logged = r.logs().any(|e| e.rest == format!("INFO {} - Build success (took: _ms)", disp));
                         let save_failed = r.logs().any(|e| e.rest.starts_with(&format!("WARN {} - Failed to", disp)));
+                        // "the state of its declared resources could be computed and stored": without
+                        // an injected I/O error and with every command resource succeeding there is
+                        // nothing that could prevent it - a warning that it was not stored is itself
+                        // the violation (the next invocation will re-run an unchanged target)
+                        if ok && success_logged && save_failed && model::has_inputs(sc, t) && matches!(which, Some(Which::Complete) | Some(Which::Both)) && filter(sc, t) {
+                            let (i, o) = states(sc, &case, t);
+                            let injected = inv.plan.faults.iter().any(|f| f.site.starts_with("fs."));
+                            if !injected && !i.cmd_failed && !o.cmd_failed && r.abnormal().is_none() {
+                                let w = r.logs().find(|e| e.rest.starts_with(&format!("WARN {} - Failed to", disp))).map(|e| e.rest.clone()).unwrap_or_default();
+                                return viol(
+                                    "state-not-stored-without-cause",
+                                    format!("target={} invocation#{}", disp, idx),
+                                    format!("{} completed successfully and nothing prevents recording its state, yet zinoma reports: {}", disp, w.chars().take(200).collect::<String>()),
+                                );
+                            }
+                        }
                         let new = if ok && success_logged && !save_failed && model::has_inputs(sc, t) {
                             let (i, o) = states(sc, &case, t);
                             if i.cmd_failed || o.cmd_failed {
